@@ -17,7 +17,7 @@ import subprocess
 import time
 from concurrent.futures import ProcessPoolExecutor
 
-from vlib import core, fsimage
+from vlib import core, fsimage, tlc
 
 SHIM = os.path.join(core.VERIF, "shim", "fsrec.so")
 
@@ -150,6 +150,77 @@ def judge(res, states, lo, hi, probe=True):
     return out
 
 
+def parse_manifest(data):
+    """(table ids, log_number) of a manifest file image"""
+    import struct
+    if len(data) < 27:
+        return None
+    ver, next_id, log_number, last_seq = struct.unpack_from(">HQQQ", data, 0)
+    off = 26
+    nlev = data[off]
+    off += 1
+    ids = []
+    for _ in range(nlev):
+        (n,) = struct.unpack_from(">I", data, off)
+        off += 4
+        for _ in range(n):
+            (tid,) = struct.unpack_from(">Q", data, off)
+            off += 8
+            ids.append(tid)
+    return ids, log_number
+
+
+def abstract_events(ops, fs_root):
+    """the recorded operations as events of spec/storage/StorageTrace.tla, each tagged with its ticket"""
+    import re
+    ev = []
+    cur = None          # transaction between commit_begin and commit_ack
+    logged = set()      # (txn, seg) already reported
+    fs = fsimage.FsState(fs_root)
+    for o in ops:
+        name = os.path.basename(o.p1)
+        m_wal = re.match(r"^(\d+)\.wal$", name) if "/wal/" in o.p1 else None
+        m_sst = re.match(r"^(\d+)\.sst$", name) if "/sstables/" in o.p1 else None
+        if o.op == fsimage.MARK:
+            try:
+                e = json.loads(o.data.decode())
+            except Exception:
+                e = {}
+            if e.get("ev") == "commit_begin":
+                cur = e["txn"]
+            elif e.get("ev") == "commit_ack":
+                ev.append({"ev": "Ack", "t": e["txn"], "sync": bool(e.get("sync")), "ticket": o.ticket})
+                cur = None
+            elif e.get("ev") == "commit_err":
+                cur = None
+            elif e.get("ev") == "flush_wal" and e.get("sync"):
+                ev.append({"ev": "FlushWal", "ticket": o.ticket})
+        elif o.op == fsimage.WRITE and m_wal and cur is not None:
+            seg = int(m_wal.group(1))
+            if (cur, seg) not in logged:
+                logged.add((cur, seg))
+                ev.append({"ev": "Log", "t": cur, "seg": seg, "ticket": o.ticket})
+        elif o.op == fsimage.FSYNC and m_wal:
+            ev.append({"ev": "WalSync", "seg": int(m_wal.group(1)), "ticket": o.ticket})
+        elif o.op == fsimage.OPEN and m_wal and (o.off & 1) and int(m_wal.group(1)) > 0:
+            ev.append({"ev": "Rotate", "seg": int(m_wal.group(1)), "ticket": o.ticket})
+        elif o.op == fsimage.UNLINK and m_wal:
+            ev.append({"ev": "WalDelete", "seg": int(m_wal.group(1)), "ticket": o.ticket})
+        elif o.op == fsimage.OPEN and m_sst and (o.off & 1):
+            ev.append({"ev": "TabCreate", "id": int(m_sst.group(1)), "ticket": o.ticket})
+        elif o.op == fsimage.FSYNC and m_sst:
+            ev.append({"ev": "TabSync", "id": int(m_sst.group(1)), "ticket": o.ticket})
+        elif o.op == fsimage.UNLINK and m_sst:
+            ev.append({"ev": "TabDelete", "id": int(m_sst.group(1)), "ticket": o.ticket})
+        elif o.op == fsimage.RENAME and o.p2.endswith(".manifest"):
+            r = fs.rel(o.p1)
+            pm = parse_manifest(bytes(fs.files.get(r, b""))) if r is not None else None
+            if pm is not None:
+                ev.append({"ev": "Manifest", "tables": pm[0], "log": pm[1], "ticket": o.ticket})
+        fs.apply(o)
+    return ev
+
+
 def sweep_workload(task):
     """one workload end to end (runs in a worker process). Returns dict with counts and violations."""
     wid, seed, wargs, budget, models, keep_dir, gen2 = task
@@ -169,6 +240,8 @@ def sweep_workload(task):
         mk = fsimage.marks(ops)
         out["acks"] = sum(1 for e in mk if e["ev"] == "commit_ack")
         states, _ = states_of(meta)
+        out["events"] = abstract_events(ops, os.path.join(base, "db"))
+        out["crash_obs"] = []
         tickets = set(fsimage.interesting_tickets(ops, budget, seed))
         out["tickets"] = len(tickets)
         db = os.path.join(base, "db")
@@ -186,6 +259,13 @@ def sweep_workload(task):
                 lo = acked if model == "process" else synced
                 res = reopen(img, meta["opts"])
                 out["images"] += 1
+                if res.get("open") != "ok":
+                    n = -2
+                else:
+                    ms = [k for k in range(len(states)) if states[k] == res["scan"]]
+                    n = -1 if not ms else (max([k for k in ms if k <= started]) if any(k <= started for k in ms) else min(ms))
+                out["crash_obs"].append({"ev": "Crash", "model": "process" if model == "process" else "power", "n": n,
+                                         "ticket": o.ticket, "variant": model})
                 for prop, cls, detail in judge(res, states, lo, started):
                     v = {"prop": prop, "class": cls, "detail": detail, "ticket": o.ticket, "model": model, "lo": lo, "hi": started}
                     if len([x for x in out["violations"] if x["class"] == cls]) < 3:
@@ -314,7 +394,87 @@ def run_sweep(ctx, n_workloads, budget, models, gen2=0):
                           sig, "%s [%s, ticket %s, workload %s seed %d]: %s" % (v["class"], v.get("model"), v.get("ticket"),
                                                                                  " ".join(r["args"]), r["seed"], v["detail"][:300]))
     core.log("[sweep] %s: %s" % (ctx.pid, json.dumps(tot)))
+    validate_traces(ctx, results)
     return tot
+
+
+OBS_OWNER = {"Obs_Reopenable": "C07", "Obs_PrefixConsistent": "C03", "Obs_Durable": "C02", "Obs_NotFromTheFuture": "C03"}
+
+
+def model_check(ctx):
+    """TLC on the bounded Storage model: every reachable state is a crash instant under both crash models."""
+    for variant, expect_ok in (("repo", True),):
+        text = tlc.cfg_variant("storage", "StorageMC.cfg", subst={"MaxTxn": ctx.pick(3, 4), "MaxRot": ctx.pick(2, 3),
+                                                                  "MaxCompact": ctx.pick(1, 2)})
+        r = tlc.run("storage", "StorageMC", "StorageMC.cfg", cfg_text=text, timeout=3000, coverage=False,
+                    out_name="storage_mc_%s_%s" % (ctx.pid, ctx.tier))
+        r["constants"] = ["MaxTxn=%d" % ctx.pick(3, 4), "MaxRot=%d" % ctx.pick(2, 3), "MaxCompact=%d" % ctx.pick(1, 2),
+                          'Variant="repo"']
+        r["invariants"] = ["TypeOK", "Reopenable", "Durable", "Atomic", "Prefix"]
+        ctx.add_tlc(r)
+    # the model of the pinned behaviour must still exhibit the repaired defects (otherwise the model lost its teeth)
+    for inv in ("Reopenable", "Durable", "Atomic", "Prefix"):
+        text = tlc.cfg_variant("storage", "StorageMC.cfg", subst={"Variant": '"orig"'}, drop=["INVARIANTS"],
+                               add=["INVARIANT " + inv])
+        r = tlc.run("storage", "StorageMC", "StorageMC_orig_%s.cfg" % inv, cfg_text=text, timeout=600, coverage=False,
+                    must_pass=False, out_name="storage_orig_%s_%s" % (inv, ctx.pid))
+        if inv not in r["violated"]:
+            raise core.ToolError('the Storage model of the pinned behaviour (Variant "orig") no longer violates %s' % inv)
+        os.remove(r["out"])
+    ctx.cov["model_teeth"] = 'Variant "orig" violates Reopenable, Durable, Atomic, Prefix (checked on this run)'
+
+
+def validate_traces(ctx, results):
+    """the recorded executions, abstracted to StorageTrace events with the crash observations merged in at their
+    tickets, are validated by TLC: mechanism rules at every real step, Obs_* on every reopened image."""
+    path = os.path.join(core.WORK, "storage_trace_%s.ndjson" % ctx.pid)
+    nev = 0
+    with open(path, "w") as f:
+        for r in results:
+            evs = list(r.get("events") or [])
+            if not evs:
+                continue
+            merged = sorted(evs + list(r.get("crash_obs") or []), key=lambda e: (e["ticket"], 0 if e["ev"] != "Crash" else 1))
+            f.write(json.dumps({"ev": "Reset", "run": r["wid"]}) + "\n")
+            nev += 1
+            for e in merged:
+                f.write(json.dumps(e) + "\n")
+                nev += 1
+    if nev == 0:
+        raise core.ToolError("no events to validate")
+    rt = tlc.run("storage", "StorageTrace", "StorageTrace.cfg", timeout=3000, coverage=False, workers=1, deque=True,
+                 env={"TRACE": path}, out_name="storage_trace_%s_%s" % (ctx.pid, ctx.tier))
+    consumed = False
+    fails = {}
+    for line in open(rt["out"], errors="replace"):
+        if line.startswith('"CONSUMED '):
+            consumed = True
+        elif line.startswith('"FAIL '):
+            v = json.loads(json.loads(line)[len("FAIL "):])
+            fails.setdefault(v["check"], []).append(v)
+    if not consumed:
+        raise core.ToolError("StorageTrace did not consume the whole trace (see %s)" % rt["out"])
+    os.remove(rt["out"])
+    os.remove(path)
+    ctx.cov.setdefault("trace_validation", []).append(
+        {"events": nev, "runs": len(results), "failed_checks": {k: len(v) for k, v in fails.items()}})
+    ctx.cov["traces_validated_against_impl"] += len(results)
+    by_wid = {r["wid"]: r for r in results}
+    for name, vs in fails.items():
+        if name.startswith("Obs_"):
+            if OBS_OWNER.get(name) != ctx.pid:
+                continue
+            for v in vs[:5]:
+                r = by_wid.get(v["run"], {})
+                ctx.violation({"driver": "crash_sweep", "saved": None, "ticket": v["ev"].get("ticket"),
+                               "model": v["ev"].get("variant"), "seed": r.get("seed"), "args": r.get("args")},
+                              {"class": name, "model": v["ev"].get("model")},
+                              "%s (judged by StorageTrace): recovered prefix %s at ticket %s, model %s"
+                              % (name, v["ev"].get("n"), v["ev"].get("ticket"), v["ev"].get("model")))
+        else:
+            # a mechanism rule of the model does not hold in this execution: the model no longer describes the code,
+            # or the code lost a safety step; the crash observations around it decide whether a property is broken
+            ctx.drift(len(vs), "%s failed %d times, first: %s" % (name, len(vs), json.dumps(vs[0]["ev"])[:200]))
 
 
 def replay(ctx, rp):
